@@ -5,6 +5,8 @@
 package symir
 
 import (
+	"strconv"
+
 	"github.com/grafana/cog/internal/ast"
 	v "github.com/grafana/cog/internal/zzverif"
 )
@@ -121,16 +123,27 @@ func (g *Gen) Ref() ast.Type {
 	return g.decorate(ast.NewRef(g.RefPkg(), g.Name()))
 }
 
+// Enum builds an enum the way the three parsers do: member names are derived from
+// the member values (fmt.Sprintf("%v", value)).
 func (g *Gen) Enum() ast.Type {
 	n := 1 + v.Choose(2)
 	var vals []ast.EnumValue
 	if v.Choose(2) == 0 {
 		for i := 0; i < n; i++ {
-			vals = append(vals, ast.EnumValue{Type: ast.String(), Name: v.Str("member", "A", "b", "1", "-1", ""), Value: v.Str("memberval", "a", " b", "1")})
+			val := v.Str("memberval", "a", " b", "1", "", "-x", "+x")
+			for _, p := range vals {
+				v.Assume(p.Name != val)
+			}
+			vals = append(vals, ast.EnumValue{Type: ast.String(), Name: val, Value: val})
 		}
 	} else {
 		for i := 0; i < n; i++ {
-			vals = append(vals, ast.EnumValue{Type: ast.NewScalar(ast.KindInt64), Name: v.Str("member", "A", "b", "1", "-1", ""), Value: int64(v.Int("memberint", 0, 2))})
+			name := v.Str("memberint", "0", "1", "-1", "2")
+			for _, p := range vals {
+				v.Assume(p.Name != name)
+			}
+			num, _ := strconv.Atoi(name)
+			vals = append(vals, ast.EnumValue{Type: ast.NewScalar(ast.KindInt64), Name: name, Value: int64(num)})
 		}
 	}
 	return g.decorate(ast.NewEnum(vals))
